@@ -536,7 +536,7 @@ class Unit:
         # external (hashbrown) iterator becomes an index loop over a ghost enumeration of the table
         self.for_rewrites = []
         self.label_props = {}  # label prefix -> [property ids] (longest prefix wins)
-        self.rlimit = 60  # allocate_batch needs ~28 (measured); 2x headroom against solver jitter
+        self.rlimit = 90  # allocate_batch needs 10-25 rlimit units depending on the solver seed and on unrelated text in the file (measured 31-70M = 10-23 units); >3x headroom
 
     def text(self, s):
         self.parts.append(("text", s))
